@@ -359,6 +359,12 @@ def write_json(path, obj):
 # ---------------------------------------------------------------- main check
 
 def check(pid, tier, seed, replay=None):
+    # one check per property at a time: two runs share build/<pid> (model binary, harness run directory)
+    with Lock("check-" + pid):
+        return _check(pid, tier, seed, replay)
+
+
+def _check(pid, tier, seed, replay=None):
     t0 = time.time()
     prop = load_prop(pid)
     bdir = os.path.join(BUILD, pid)
@@ -434,6 +440,9 @@ def check(pid, tier, seed, replay=None):
                     corr_broken.append("modelrun timed out")
                 if nm:
                     corr_broken.append("model and implementation disagree on %d of %d cases" % (nm, ncases))
+            if rc == 0 and ncases == 0 and int(stats.get("oracle_checks", 0) or 0) == 0:
+                # a harness that explored nothing decides nothing: never report OK for it
+                corr_broken.append("harness run produced no correspondence case and no oracle check")
 
     # 4. verdict
     kf = [k for k in known_findings() if k.get("property") == pid]
